@@ -40,6 +40,47 @@ func j2kContent(a j2kCase) []int {
 	span := hi - lo + 1
 	n := a.W * a.H * a.C
 	s := make([]int, n)
+	if a.K >= 1000 {
+		// two-colour images: every component of a colour is an extreme of the range; K-1000 = pair*6 + pattern
+		idx := a.K - 1000
+		pat, pair := idx%6, idx/6
+		nco := 1 << uint(a.C)
+		ca, cb := pair/(nco-1), pair%(nco-1)
+		if cb >= ca {
+			cb++
+		}
+		for y := 0; y < a.H; y++ {
+			for x := 0; x < a.W; x++ {
+				var first bool
+				switch pat {
+				case 0:
+					first = (x+y)%2 == 0
+				case 1:
+					first = (x%4 == 0) != (y%4 == 0)
+				case 2:
+					first = x%2 == 0
+				case 3:
+					first = y%2 == 0
+				case 4:
+					first = (x/2+y/2)%2 == 0
+				default:
+					first = x%4 == 0 && y%4 == 0
+				}
+				col := cb
+				if first {
+					col = ca
+				}
+				for c := 0; c < a.C; c++ {
+					v := lo
+					if col>>uint(c)&1 == 1 {
+						v = hi
+					}
+					s[(y*a.W+x)*a.C+c] = v
+				}
+			}
+		}
+		return s
+	}
 	l := eng.NewLCG(a.K*977 + a.P)
 	for y := 0; y < a.H; y++ {
 		for x := 0; x < a.W; x++ {
@@ -443,6 +484,45 @@ func c04(c *eng.Ctx) {
 		}
 	}
 	runJ2K(c, "C04.roundtrip", jobs, j2kFn, "PG-precinct-grids", fmt.Sprintf("(w,h) in %v^2 x levels {1,2,3,5} x code-block %v x precinct %v x progression 0..4 x layers {1,2}, noise contents: resolutions spanning several precincts, widths one past a precinct multiple (quick: 1/4 rotation keeping every pair of dimension values)", pgs, pgcb, pgpr), c.Thorough())
+	// ---- PD: precincts smaller than 2^levels (clamped precinct exponents at the low resolutions), several code-block rows there
+	jobs = nil
+	for _, sz := range [][2]int{{40, 260}, {260, 260}, {70, 520}, {260, 40}} {
+		for _, lv := range []int{5, 6} {
+			for _, cb := range [][2]int{{4, 4}, {8, 8}, {64, 4}} {
+				for _, pr := range [][2]int{{32, 32}, {64, 64}} {
+					for prog := 0; prog <= 4; prog++ {
+						if c.Quick() && sz[0]*sz[1] > 30000 && (lv+prog+cb[0])%2 != 0 {
+							continue
+						}
+						jobs = append(jobs, j2kCase{W: sz[0], H: sz[1], C: 1, P: 8, Levels: lv, CBW: cb[0], CBH: cb[1], PW: pr[0], PH: pr[1], Prog: prog, Layers: 1, K: 101})
+					}
+				}
+			}
+		}
+	}
+	runJ2K(c, "C04.roundtrip", jobs, j2kFn, "PD-deep-precincts", "sizes {40x260, 260x260, 70x520, 260x40} x levels {5,6} x code-block {4x4, 8x8, 64x4} x precinct {32,64} x progression 0..4 on noise: precinct exponents clamped at the low resolutions with several code-block rows there (quick: half of the large cases)", c.Thorough())
+	// ---- X: two-colour images whose colours are corners of the sample cube (largest possible transform coefficients)
+	jobs = nil
+	for si, sz := range [][2]int{{8, 8}, {16, 16}, {17, 9}, {33, 20}} {
+		for li, lv := range []int{1, 2, 3, 5} {
+			for pi, p := range []int{1, 2, 8, 12, 16} {
+				for _, signed := range []bool{false, true} {
+					for _, nc := range []int{1, 3} {
+						nco := 1 << uint(nc)
+						for pair := 0; pair < nco*(nco-1); pair++ {
+							for pat := 0; pat < 6; pat++ {
+								if c.Quick() && (si+li+pi+pair+pat)%4 != 0 {
+									continue
+								}
+								jobs = append(jobs, j2kCase{W: sz[0], H: sz[1], C: nc, P: p, Signed: signed, Levels: lv, CBW: 64, CBH: 64, Layers: 1, MCT: nc == 3, K: 1000 + pair*6 + pat})
+							}
+						}
+					}
+				}
+			}
+		}
+	}
+	runJ2K(c, "C04.roundtrip", jobs, j2kFn, "X-extreme-two-colour", "sizes {8x8,16x16,17x9,33x20} x levels {1,2,3,5} x P {1,2,8,12,16} x signed x components {1, 3 with MCT} x every ordered pair of cube-corner colours x 6 spatial patterns (checker, period-4 lattice, stripes, 2x2 blocks, isolated pixels): coefficients at and beyond the nominal bit depth of a band (quick: 1/4 rotation)", c.Thorough())
 	c.Sample(map[string]any{"W": 1, "H": 1, "C": 1, "P": 5, "Signed": true, "Levels": 0, "Pix": []int{-1}})
 	c.Sample(map[string]any{"W": 7, "H": 12, "C": 3, "P": 8, "Levels": 4, "CBW": 8, "CBH": 4, "PW": 32, "PH": 128, "Prog": 3, "Layers": 6, "MCT": true, "content": "noise"})
 }
